@@ -156,7 +156,9 @@ func txHistTest(t *testing.T, prop, test string, prefixes []string, withRestart 
 
 func TestC03Delivery(t *testing.T) {
 	txHistTest(t, "C03", "TestC03Delivery", []string{"C03/", "TX/"}, false,
-		func(f map[string]bool) bool { return f["duplicate-body"] || (f["block"] && (f["trusted-inv"] || f["untrusted-body"])) },
+		func(f map[string]bool) bool {
+			return f["duplicate-body"] || (f["block"] && (f["trusted-inv"] || f["untrusted-body"]))
+		},
 		txHistRule+"; oracle C03: relevant and seen => exactly one new-transaction notification per handler with the spent output per input, irrelevant => none, duplicates/confirmation => updates only; non-trivial = a body reaches the node twice or a tx is both seen unconfirmed and mined; distinct by scenario hash")
 }
 
